@@ -59,6 +59,7 @@ type Config struct {
 	PCTDepth int
 	PCTLen   int // estimated length for change points
 	TickBias int // 1 in TickBias choices prefers a tick when available (0 = uniform)
+	TickHold bool // no tick fires before the harness calls AllowTicks()
 	NoTrace  bool
 	FailFast bool
 }
@@ -76,6 +77,7 @@ type Result struct {
 }
 
 type Sched struct {
+	ticksOn bool
 	cfg     Config
 	gs      []*G
 	cur     *G
@@ -217,7 +219,7 @@ func (s *Sched) enabledList() []*G {
 }
 
 func (s *Sched) tickable() []*Ticker {
-	if s.ticks >= s.cfg.MaxTicks {
+	if s.ticks >= s.cfg.MaxTicks || (s.cfg.TickHold && !s.ticksOn) {
 		return nil
 	}
 	var ts []*Ticker
@@ -389,6 +391,16 @@ func Abort() {
 	s.aborted = true
 	s.logRaw("X", "abort", "simulated process death")
 	s.yield(&pending{desc: "aborted", enabled: func() bool { return false }})
+}
+
+// AllowTicks opens the tick gate of Config.TickHold.
+func AllowTicks() {
+	s := S
+	if s.dead() {
+		return
+	}
+	s.yield(&pending{desc: "allowticks"})
+	s.ticksOn = true
 }
 
 // Yield is an explicit scheduling point for harness code (e.g. inside worker functions).
